@@ -33,11 +33,12 @@ def run(tier, seed, t0):
             v["crash"] = False
     floors = {
         "histories_with_division_or_removal": (m.nontrivial, 0.5 * m.evaluations), "divisions": (m.bins.get("divisions", 0), 30), "removals": (m.bins.get("removals", 0), 30),
+        "populations_shrunk_to_exactly_one_cell": (m.bins.get("shrunk_to_one_cell", 0), 5),
         "removal_first": (m.bins.get("removal_first", 0), 5), "removal_middle": (m.bins.get("removal_middle", 0), 5), "removal_last": (m.bins.get("removal_last", 0), 5),
         "couplings_checked": (m.bins.get("couplings_checked", 0), 100000), "phase_checks": (m.bins.get("phase_checks", 0), 5000), "iterations_with_couplings": (m.bins.get("iterations_with_couplings", 0), 500),
     }
     return R.finish(ID, tier, seed, m,
-                    "history = adhering row/grid of 2-15 spheres (gap < adhesion cut-off) x roles per cell (stay / fast divider / doomed with staggered "
+                    "history = adhering pair (20 %) or row/grid of 2-15 spheres (gap < adhesion cut-off) x roles per cell (stay / fast divider / doomed with staggered "
                     "minimum volumes at first, last and random positions / lumen / static) x face-type counts x contact model x thread count x 30-150 "
                     "iterations; non-trivial = at least one division or removal happened; distinct = hash of (divisions, removals, start/end size, couplings)",
                     t0, ["phase hook H4 runs on the master thread outside parallel regions", "partner identity judged by distance <= 2 adhesion cut-offs at the boundaries after contacts / polarisation / forces"],
